@@ -224,8 +224,16 @@ RegistryT<ArgsT<TG_, TSL_, TRL_, NCC_, NOC_, NOU_, TRO_ HFSM2_IF_SERIALIZATION(,
 		 parent;
 		 parent = forkParent(parent.forkId))
 	{
-		if (parent.forkId > 0)
+		if (parent.forkId > 0) {
 			compoRemains.set(parent.forkId - 1);
+
+			// this region is active on the way to the destination: an earlier request of the same batch
+			// that re-targeted it elsewhere is withdrawn, the later request wins
+			Prong& requested = compoRequested[parent.forkId - 1];
+
+			if (requested != parent.prong)
+				requested = INVALID_PRONG;
+		}
 		else
 		if (parent.forkId < 0)
 			requestedOrthoFork(parent.forkId).set(parent.prong);
